@@ -9,6 +9,7 @@ entries take the same values under the n+1 hard probe predictors h = 0, e_1..e_n
 from __future__ import annotations
 
 import numpy as np
+import pandas as pd
 from hypothesis import strategies as st
 
 from vf import momcommon as MC
@@ -193,6 +194,54 @@ def _mf_crosscheck(case, events, entries, assigned, vals):
         )
 
 
+def check_parity_large(case):
+    """Thousands of rows (sizes around multiples of 4096 included): gamma against numpy means computed from the rows."""
+    import fairlearn.reductions as red
+
+    rs = np.random.RandomState(case["seed"])
+    n, G = case["n"], case["groups"]
+    g = rs.randint(0, G, size=n)
+    y = rs.randint(0, 2, size=n)
+    y[:2], g[:2 * G] = [0, 1], np.repeat(np.arange(G), 2)[: 2 * G]
+    h = rs.rand(n) if case["soft"] else rs.randint(0, 2, size=n).astype(float)
+    # the last rows carry extreme values so that a dropped row shows
+    h[-1] = 1.0
+    y[-1] = case["last_label"]
+    g[-1] = case["last_group"] % G
+    r = case["ratio"]
+    kw = {} if r is None else {"ratio_bound": r, "ratio_bound_slack": 0.0}
+    m = getattr(red, case["moment"])(**kw)
+    X = pd.DataFrame({"x": np.arange(n)}) if case["frame"] else np.arange(n).reshape(-1, 1)
+    m.load_data(X, y, sensitive_features=g)
+    gam = m.gamma(lambda X_: h)
+    rr = 1.0 if r is None else r
+    u = y + h * (1 - 2 * y) if case["moment"] == "ErrorRateParity" else h
+    events = {"DemographicParity": [("all", np.ones(n, bool))], "ErrorRateParity": [("all", np.ones(n, bool))],
+              "TruePositiveRateParity": [("label=1", y == 1)], "FalsePositiveRateParity": [("label=0", y == 0)],
+              "EqualizedOdds": [("label=0", y == 0), ("label=1", y == 1)]}[case["moment"]]
+    seen = 0
+    for ev, em in events:
+        for k in range(G):
+            gm = em & (g == k)
+            if not gm.any():
+                continue
+            a, b = float(u[gm].mean()), float(u[em].mean())
+            for sign, e in (("+", rr * a - b), ("-", rr * b - a)):
+                got = float(gam[(sign, ev, k)])
+                need(abs(got - e) <= 1e-9, f"{case['moment']} (n={n}): gamma[{sign},{ev},{k}] = {got!r}, from the {int(gm.sum())} rows of the group and the {int(em.sum())} rows of the event: {e!r}")
+                seen += 1
+    need(seen == len(gam), f"gamma has {len(gam)} entries, {seen} (event, group) pairs occur")
+    return ["nt", f"n={n}"] + (["n%4096==1"] if n % 4096 == 1 else [])
+
+
+@st.composite
+def _parity_large_cases(draw):
+    return {"n": draw(st.sampled_from([4096, 4097, 5000, 8193, 12289, 20000, 4095, 16385])), "groups": draw(st.integers(2, 4)),
+            "seed": draw(st.integers(0, 2**31 - 1)), "soft": draw(st.booleans()), "moment": draw(st.sampled_from(MC.MOMENTS)),
+            "ratio": draw(st.sampled_from([None, None, 0.8, 0.5])), "frame": draw(st.booleans()),
+            "last_label": draw(st.integers(0, 1)), "last_group": draw(st.integers(0, 3))}
+
+
 # ---- (d) BoundedGroupLoss ----------------------------------------------------------------------------
 
 
@@ -271,4 +320,6 @@ SUBS = [
         floors={"nt": 0.402, "clipped": 0.3}),
     Sub("error_rate_gamma", check_error_rate, strategy=lambda: MC.error_rate_case(), quick=400, thorough=8000,
         shards=8, floors={"nt": 0.282, "asymmetric_costs": 0.213, "soft": 0.174, "default_costs": 0.1}),
+    Sub("parity_gamma_large", check_parity_large, strategy=_parity_large_cases, quick=48, thorough=800, shards=16, shrink_quick=False,
+        floors={"n%4096==1": 0.2}),
 ]
